@@ -458,7 +458,12 @@ def _random_node_(seed):
             modprops[m] = {'description': rnd.choice(['module text', 'other\ntext']), 'group': rnd.choice(['', 'mg']),
                            'visibility': rnd.choice(['user', 'advanced', 'expert']),
                            'meaning': rnd.choice([['temperature', 10], ['', 0], ['magneticfield', 3]])}
-    w = dc.World(shape, bases, feats, modprops)
+    try:
+        w = dc.World(shape, bases, feats, modprops)
+    except Exception as e:      # a node the generator is entitled to build cannot be created
+        return {'build_error': repr(e)[:300], 'shape': shape,
+                'constants': sorted({x['dt']['t'] for accs in shape.values() for x in accs.values()
+                                     if x['kind'] == 'param' and x['const'] != NULL})}
     p = Prober(w.srv.dispatcher)
     p.expnode = _gen_expnode()
     p.first_reads()
@@ -745,6 +750,11 @@ def run(chk):
     n = 60 if quick else 1500
     hidden = [[] for _ in traces]
     for x in pool_map(_random_node, [chk.seed * 1000003 + i for i in range(n)]):
+        if 'build_error' in x:
+            chk.violation({'module': 'Describe', 'clause': 'node.build', 'constants': x['constants'], 'world': 'generated'},
+                          {'world': 'generated:random', 'error': x['build_error'], 'shape': x['shape']})
+            n -= 1
+            continue
         traces.append(x['trace'])
         hidden.append(x['hidden'])
         shapes.append(x['shape'])
